@@ -16,10 +16,10 @@ func init() {
 			Explanation: "Decides: C03.local (the consensus functions — round, witness, Lamport timestamp, ancestry, strongly-see, fame, round-received, frame/root/block construction, thresholds, median — and everything they call inside the module, stopping at the Store boundary, read none of the process-local fields (topological indexes, consensus-event counter, pending-loaded counter), call no clock / randomness / OS function and none of the view-dependent store getters), " +
 				"C03.order (no ordered output — Frame.Events, Root.Events, Frame.Peers, block transactions — is filled from a map iteration, from a map-ordered helper result or from a local-arrival-ordered queue without a dominating content-keyed sort), " +
 				"C03.memo (each memo cache is filled only by its wrapper with the wrapped function's result for the same arguments, keyed by ALL parameters, and by InsertFrameEvent / Reset), " +
-				"C03.timestamp (the frame timestamp is computed from the famous witnesses of the decided round, not from whatever witnesses are registered at the time; shared with C18.prov), C03.passstate (non-interference: nothing reachable from InsertEvent reads what the consensus passes write — recorded rounds, RoundInfo, memoised round/witness —, since whatever insertion writes into the DAG summary would then depend on how many passes ran between insertions; on the current tree updateAncestorFirstDescendant does: known finding F-C03-2, differential reproduction in /verif/findings/F-C03-2), " +
+				"C03.mappick (no consensus function lets a value of one iteration of a map range escape through an early exit: counting and order-independent predicates only), C03.timestamp (the frame timestamp is computed from the famous witnesses of the decided round, not from whatever witnesses are registered at the time; shared with C18.prov), C03.passstate (non-interference: nothing reachable from InsertEvent reads what the consensus passes write — recorded rounds, RoundInfo, memoised round/witness —, since whatever insertion writes into the DAG summary would then depend on how many passes ran between insertions; on the current tree updateAncestorFirstDescendant does: known finding F-C03-2, differential reproduction in /verif/findings/F-C03-2), " +
 				"C03.memotime (a necessary condition of batching-independence: the memoised round / witness predicates — whose value depends on which witnesses DivideRounds has registered so far — are never evaluated on the insertion path, only by the consensus passes), C03.canon (frame and round encoders are canonical). " +
 				"NOT decided: independence from cache size, store type and batching of consensus passes (a quantification over configurations of a dynamic process; LRU-eviction dependence of GetRound is a runtime question)."},
-		Rules: []ruleFunc{c03local, c03order, c03memo, c03memotime, c03passstate, func(p *Prog, r *Report) { timestampRule(p, r, "C03.timestamp") }, func(p *Prog, r *Report) { r.Rule("C03.canon", 2, "canonical encoders"); canonRule(p, r, "C03.canon") }},
+		Rules: []ruleFunc{c03local, c03order, c03memo, c03memotime, c03passstate, func(p *Prog, r *Report) { timestampRule(p, r, "C03.timestamp") }, func(p *Prog, r *Report) { mapPickRule(p, r, "C03.mappick", consensusFuncs) }, func(p *Prog, r *Report) { r.Rule("C03.canon", 2, "canonical encoders"); canonRule(p, r, "C03.canon") }},
 	})
 	register(&propDef{
 		ID: "C13", NeedCG: true,
@@ -832,4 +832,90 @@ func c03passstate(p *Prog, r *Report) {
 		r.Check(len(bad) == 0, rule, short+":reads-pass-state", p.pos(f.Pos()), fnName(f), "insertion-time code independent of the consensus passes",
 			"insertion-time code reads state written by the consensus passes ("+strings.Join(bad, "; ")+"): what it writes into the DAG summary depends on how many passes ran between insertions — consensus results can differ between per-event and batched passes")
 	}
+}
+
+// mapPickRule: Go's map iteration order is random. A consensus function may range over a map to
+// COUNT or to test an order-independent predicate, but it must not let a value of one particular
+// iteration leave the loop through an early exit (`for k, v := range m { if … { return f(k) } }`,
+// or break after assigning): which element is met first differs from run to run and node to node.
+func mapPickRule(p *Prog, r *Report, rule string, roots [][3]string) {
+	r.Rule(rule, 1, "no consensus function lets a value of one iteration of a map range escape through an early exit")
+	var rs []*ssa.Function
+	for _, n := range roots {
+		if f := p.Func(n[0], n[1], n[2]); f != nil {
+			rs = append(rs, f)
+		}
+	}
+	set := p.reach(rs, func(f *ssa.Function) bool { return !inModule(f) || isStoreImpl(f) })
+	var fs []*ssa.Function
+	for f := range set {
+		if inModule(f) && f.Synthetic == "" && !isStoreImpl(f) {
+			fs = append(fs, f)
+		}
+	}
+	sort.Slice(fs, func(i, j int) bool { return fs[i].String() < fs[j].String() })
+	nLoops := 0
+	for _, f := range fs {
+		for _, lp := range naturalLoops(f) {
+			if !isMapRangeLoop(f, lp) {
+				continue
+			}
+			nLoops++
+			// the iteration's key / value
+			var next *ssa.Next
+			for b := range lp.body {
+				for _, in := range b.Instrs {
+					if nx, ok := in.(*ssa.Next); ok {
+						if il := innermostLoop(naturalLoops(f), b); il != nil && il.head == lp.head {
+							next = nx
+						}
+					}
+				}
+			}
+			if next == nil {
+				continue
+			}
+			fromIter := func(v ssa.Value) bool {
+				if _, isErr := v.Type().Underlying().(*types.Interface); isErr && isErrorType(v.Type()) {
+					return false
+				}
+				return dependsOn(v, func(x ssa.Value) bool {
+					e, ok := x.(*ssa.Extract)
+					return ok && e.Tuple == ssa.Value(next) && e.Index > 0
+				})
+			}
+			bad := ""
+			for b := range lp.body {
+				if b == lp.head {
+					continue // leaving through the head is exhaustion
+				}
+				for _, s := range b.Succs {
+					if lp.body[s] {
+						continue
+					}
+					// early exit b -> s: values defined in the loop and used outside
+					for lb := range lp.body {
+						for _, in := range lb.Instrs {
+							v, isVal := in.(ssa.Value)
+							if !isVal || v.Referrers() == nil || !fromIter(v) {
+								continue
+							}
+							for _, u := range *v.Referrers() {
+								if u.Block() != nil && !lp.body[u.Block()] {
+									if _, isDbg := u.(*ssa.DebugRef); !isDbg {
+										bad = p.ipos(u)
+									}
+								}
+							}
+						}
+					}
+					// a return inside the exit block carrying iteration data is covered by the scan above
+					// only if the return block is outside the loop body (it is: it has no path back)
+				}
+			}
+			r.Check(bad == "", rule, f.Name()+":map-range@"+p.ipos(next), p.ipos(next), fnName(f), "map range used for an order-independent result",
+				"a value of one iteration of a map range leaves the loop through an early exit and is used at "+bad+": which element is met first depends on Go's random map order, so the result (a vote, a fame decision, a block) differs between runs and between nodes")
+		}
+	}
+	r.Note("%s: %d map-range loops examined in %d consensus functions", rule, nLoops, len(fs))
 }
